@@ -140,7 +140,7 @@ class Ctx(object):
         self._included.add(name)
         _ = self.prog  # forces fact extraction -> hash
         d = os.path.join(facts.CACHE, self._src_hash)
-        path = os.path.join(d, 'shared-%s-%s.json' % (name, self.tier))
+        path = os.path.join(d, 'shared-%s-%s-%s.json' % (name, self.tier, facts.checker_hash()))
         rec = None
         with facts.Lock(os.path.join(facts.CACHE, 'lock.shared-%s' % name)):
             if os.path.exists(path):
